@@ -6,6 +6,7 @@ import (
 	"fmt"
 	"math/rand"
 	"strconv"
+	"strings"
 	"sync"
 
 	"go.nanomsg.org/mangos/v3"
@@ -72,9 +73,13 @@ type answerSt struct {
 
 type rig struct {
 	c       *mon.Case
-	proto   string
+	proto   string // signature prefix: the protocol, plus "/via-devices" when the peers sit behind devices
+	kind    string // the protocol of the socket under test
 	raw     bool
 	sock    mangos.Socket
+	edge    mangos.Socket // the socket the vt peers connect to: sock itself, or the front of the outermost device
+	ndev    int           // devices between the peers and sock
+	ttl     int
 	L       *vt.ListenerCtl
 	nonce   string
 	mu      sync.Mutex // guards everything below (conc mode has several goroutines)
@@ -91,9 +96,54 @@ type rig struct {
 }
 
 func newRig(c *mon.Case, proto string, nctx, npipes, ttl int) *rig {
-	r := &rig{c: c, proto: proto, raw: proto[0] == 'x', detIDs: map[uint32]bool{}, reqs: map[int]*reqSt{}, answers: map[int]*answerSt{}, nonce: hx.Uniq("c")}
+	return newRigVia(c, proto, nctx, npipes, ttl, 0, "")
+}
+
+// newRigVia puts ndev devices between the vt peers and the socket under test:
+//
+//	vt peers -> [front|back] -> ... -> [front|back] -> rep / respondent
+//
+// front = raw REP (raw RESPONDENT), back = raw REQ (raw SURVEYOR), forwarding by mangos.Device; hop k
+// (device k's back side to the next front, the last one to the server) uses transport trs[k].  What
+// the harness sees on its vt pipes is then what comes out of the whole chain: the reply must still be
+// on the requester's connection and carry exactly the routing header the requester sent.
+func newRigVia(c *mon.Case, proto string, nctx, npipes, ttl, ndev int, trs string) *rig {
+	r := &rig{c: c, proto: proto, kind: proto, raw: proto[0] == 'x', ndev: ndev, ttl: ttl, detIDs: map[uint32]bool{}, reqs: map[int]*reqSt{}, answers: map[int]*answerSt{}, nonce: hx.Uniq("c")}
 	r.sock = hx.MustSock(c, proto)
-	r.sock.SetPipeEventHook(func(ev mangos.PipeEvent, p mangos.Pipe) {
+	if err := r.sock.SetOption(mangos.OptionTTL, ttl); err != nil {
+		panic(fmt.Sprintf("SetOption(TTL,%d): %v", ttl, err))
+	}
+	r.edge = r.sock
+	if ndev > 0 {
+		r.proto = proto + "/via-devices"
+		front, back := "xrep", "xreq"
+		if proto == "respondent" {
+			front, back = "xrespondent", "xsurveyor"
+		}
+		tr := strings.Split(trs, ",")
+		up := r.sock
+		// from the server outwards, so that every back side finds its listener
+		for k := ndev - 1; k >= 0; k-- {
+			f, b := hx.MustSock(c, front), hx.MustSock(c, back)
+			if err := f.SetOption(mangos.OptionTTL, ttl); err != nil {
+				panic(fmt.Sprintf("SetOption(TTL,%d): %v", ttl, err))
+			}
+			w := hx.WatchPipes(up)
+			if _, _, err := hx.Connect(up, b, tr[k%len(tr)]); err != nil {
+				c.Inconclusive("harness set-up failed: device hop %d over %s: %v", k, tr[k%len(tr)], err)
+				return r
+			}
+			if !hx.WaitAttached(c, w, 1, "device-back-side") {
+				return r
+			}
+			if err := mangos.Device(f, b); err != nil {
+				panic(fmt.Sprintf("Device(%s,%s): %v", front, back, err))
+			}
+			up = f
+		}
+		r.edge = up
+	}
+	r.edge.SetPipeEventHook(func(ev mangos.PipeEvent, p mangos.Pipe) {
 		r.mu.Lock()
 		switch ev {
 		case mangos.PipeEventAttached:
@@ -103,13 +153,10 @@ func newRig(c *mon.Case, proto string, nctx, npipes, ttl int) *rig {
 		}
 		r.mu.Unlock()
 	})
-	if err := r.sock.SetOption(mangos.OptionTTL, ttl); err != nil {
-		panic(fmt.Sprintf("SetOption(TTL,%d): %v", ttl, err))
-	}
 	name := hx.Uniq("srv")
 	r.L = vt.L(name)
 	c.Cleanup(func() { vt.Forget(name) })
-	if err := r.sock.Listen(vt.Addr(name)); err != nil {
+	if err := r.edge.Listen(vt.Addr(name)); err != nil {
 		panic(err)
 	}
 	if !r.raw {
@@ -129,6 +176,11 @@ func newRig(c *mon.Case, proto string, nctx, npipes, ttl int) *rig {
 	}
 	return r
 }
+
+// depthLimit: requests carry 0 .. depthLimit()-1 routing words in front of the id when they leave the
+// harness; every device on the way adds one, and the receiver furthest in must still find the id
+// within its hop limit.
+func (r *rig) depthLimit() int { return r.ttl - r.ndev }
 
 func (r *rig) nAttached() int { r.mu.Lock(); defer r.mu.Unlock(); return len(r.att) }
 
